@@ -9,6 +9,7 @@
    constructor arguments and the recorded generator outputs.  Output: the list of
    selected sample ids in order, None = the constructor raised.  No proofs here. *)
 From Coq Require Import ZArith List Bool.
+From Coq Require String.
 Import ListNotations.
 Open Scope Z_scope.
 
@@ -48,6 +49,23 @@ Definition is_some {A} (o : option A) : bool := match o with Some _ => true | No
 (* valid = true: valid_classes given, else invalid_classes *)
 Definition class_filter (valid : bool) (cls : list Z) (classes : list Z) : list Z :=
   sel_from 0 (fun c => Bool.eqb (existsb (Z.eqb c) cls) valid) classes.
+
+(* ---------------- ClassFilterWrapper by name ---------------- *)
+(* valid_class_names / invalid_class_names are mapped to class numbers first:
+     np.squeeze(np.argwhere(np.isin(np.array(dataset.class_names), names)), axis=1).tolist()
+   = the numbers of ALL classes whose name is one of the requested names, ascending (a name may be carried by
+   several classes; a requested name no class carries contributes nothing; names are compared exactly) *)
+Fixpoint name_positions (i : Z) (names class_names : list String.string) : list Z :=
+  match class_names with
+  | [] => []
+  | nm :: r => if existsb (String.eqb nm) names then i :: name_positions (i + 1) names r
+               else name_positions (i + 1) names r
+  end.
+
+Definition names_to_classes (class_names names : list String.string) : list Z := name_positions 0 names class_names.
+
+Definition class_filter_by_name (valid : bool) (class_names names : list String.string) (classes : list Z) : list Z :=
+  class_filter valid (names_to_classes class_names names) classes.
 
 (* ---------------- PercentFilterWrapper ---------------- *)
 (* The percent wrappers are written over an abstract percent type with its operations
@@ -245,6 +263,7 @@ Definition classwise_percent_g {P} (O : pct_ops P) (classes : list Z) (C : Z) (s
 (* ---------------- one constructor call ---------------- *)
 Inductive wcase_g (P : Type) :=
 | WClassFilter (valid : bool) (cls : list Z)
+| WClassFilterNames (valid : bool) (class_names names : list String.string)
 | WPercent (from to : option P) (cf ct : bool)
 | WSubsetIdx (idxs : list Z)
 | WSubsetRange (s e : option Z)
@@ -257,7 +276,7 @@ Inductive wcase_g (P : Type) :=
 | WFewshot (shots : Z) (draws : list (list Z))
 | WClasswiseRange (s e : option Z) (check : bool)
 | WClasswisePercent (s e : option P).
-Arguments WClassFilter {P}. Arguments WPercent {P}. Arguments WSubsetIdx {P}. Arguments WSubsetRange {P}.
+Arguments WClassFilter {P}. Arguments WClassFilterNames {P}. Arguments WPercent {P}. Arguments WSubsetIdx {P}. Arguments WSubsetRange {P}.
 Arguments WSubsetPercent {P}. Arguments WShuffle {P}. Arguments WRepeat {P}. Arguments WOversample {P}.
 Arguments WSortByClass {P}. Arguments WIntraClass {P}. Arguments WFewshot {P}. Arguments WClasswiseRange {P}.
 Arguments WClasswisePercent {P}.
@@ -266,6 +285,7 @@ Definition run_g {P} (O : pct_ops P) (classes : list Z) (C : Z) (w : wcase_g P) 
   let n := zlen classes in
   match w with
   | WClassFilter v cls => Some (class_filter v cls classes)
+  | WClassFilterNames v cn names => Some (class_filter_by_name v cn names classes)
   | WPercent f t cf ct => percent_filter_g O n f t cf ct
   | WSubsetIdx idxs => subset_indices n idxs
   | WSubsetRange s e => subset_range n s e
@@ -279,3 +299,27 @@ Definition run_g {P} (O : pct_ops P) (classes : list Z) (C : Z) (w : wcase_g P) 
   | WClasswiseRange s e chk => classwise_range classes C s e chk
   | WClasswisePercent s e => classwise_percent_g O classes C s e
   end.
+
+(* ---------------- KDSubset: what a wrapper exposes, wrappers on top of wrappers ---------------- *)
+(* KDSubset._call_getitem / _call_getall / get_sampler_weights: position j of a wrapper with the selection `out`
+   shows item out[j] of what it wraps: values[out[j]] *)
+Definition through (values : list Z) (out : list Z) : list Z := map (fun i => nth (Z.to_nat i) values (-1)) out.
+
+(* several constructor calls on one dataset: the labels are handed to every constructor BY VALUE - no call can change
+   what a later call sees (for the real constructors: harness clause construction_leaves_labels_unchanged) *)
+Definition run_session_g {P} (O : pct_ops P) (classes : list Z) (C : Z) (ws : list (wcase_g P)) : list (option (list Z)) :=
+  map (run_g O classes C) ws.
+
+(* wrapper B constructed on top of wrapper A: B's constructor sees the labels A exposes, and B's selection addresses
+   positions of A *)
+Definition stacked_with {P} (runf : list Z -> Z -> wcase_g P -> option (list Z)) (classes : list Z) (C : Z)
+           (wA wB : wcase_g P) : option (list Z) :=
+  match runf classes C wA with
+  | Some a => match runf (through classes a) C wB with
+              | Some b => Some (through a b)
+              | None => None
+              end
+  | None => None
+  end.
+
+Definition stacked_g {P} (O : pct_ops P) := stacked_with (run_g O).
